@@ -40,6 +40,10 @@ CHECKS = {
    technique="bounded-exhaustive enumeration of base family graphs x all edit sequences up to k of the right-hand copy x similarity options x entry points, with marker accounting and referential-closure oracles",
    text="Five referentially closed base graphs against their right-hand copy after every sequence of up to 2 (quick) / 3 (thorough) edits from 11 edit kinds, plus empty, disjoint and clashing-pointer documents on either side, under default/strict/lenient thresholds through the library call and the query function: every marker in exactly one output individual, at most one left and one right marker per individual, every fact of both originals present, output re-decodes to the same document, every HUSB/WIFE/CHIL/FAMS/FAMC reference resolves to the record now representing the person it denoted.",
    note="Independent of which matching the implementation chooses (unique marker per individual). Jobs unset; schedules are C11's business. Two known findings share the root cause 'no pointer rewriting'; reference findings are collected per case so they cannot mask other findings."),
+ "C11": dict(engine="E1", category="model_checking", design_ref="§3.1, §4 C11",
+   technique="stateless model checking of the implementation: controlled cooperative scheduler + delay-bounded exhaustive schedule enumeration (iterative deviation bounding) over the AST-instrumented real code, with a vector-clock happens-before race monitor",
+   text="The real IndividualNodes.Compare pipeline (four goroutine stages, three worker pools, polling select, two sync.Map sent-sets, a mutex-protected counter) is rewritten by tools/vinstr at check time and run under engine/vsched on 12 tiny colliding input pairs x Jobs {0,1,2,3,(8,16)} x thresholds {0,default,1} x channel capacity {real,1} x sync.Map range order x three base schedulers; every schedule with at most d deviations (quick: d=2 on the main configuration, d=1 on the option grid; thorough: one more) runs to completion and is judged for termination (deadlock/livelock), valid one-to-one matching, justified pairs, equality with the sequential result when tie-free, and data races (happens-before monitor over instrumented field/variable/map accesses).",
+   note="Scheduling points are the hooked synchronisation operations; races are reported rather than explored. nodeCache/pointerCache are quiet maps with run-time-checked side conditions (full_maps configurations make them points). Replay determinism is asserted per configuration. GOMAXPROCS is not a dimension (the scheduler produces every interleaving of hooked operations). The CLI 'gedcom diff' hand-off is not yet driven."),
  "C12": dict(engine="E3", category="exploration", design_ref="§4 C12",
    technique="bounded-exhaustive enumeration of all operand pairs over small string alphabets, a date window, a finite individual universe x option grid, small lists and family graphs, against range/symmetry/identity/monotonicity laws",
    text="All ordered pairs: strings over {a,b} up to length 8/10 and {a,b,c} up to 5/6 (JaroWinkler x prefix sizes x boost thresholds), names with case/punctuation/multi-byte letters (StringSimilarity), ~420 DATE values x 3 maxYears with per-row distance monotonicity, 75 individuals x 106 option settings (Similarity, SurroundingSimilarity, WeightedSimilarity), lists of 0..3 individuals x 3 MinimumSimilarity, 21 family graphs; every score in [0,1] exactly, operand-order independent within 1e-12, 1 on identity, 0 beyond maxYears, 0.5 where the documentation promises neutrality.",
